@@ -291,8 +291,9 @@ def cbRead (guard : Bool) (obj : Bytes) (S maxSub p : Nat) (st : CBState) (off l
     | .ok bs => hexOfStr bs
     | .error .panic => "panic"
     | .error .failed => "err"
-  let subs := subs ++ r.stores.filter fun k => !subs.contains k
-  (s!"{out}/{if attrHit then "-" else "A"}/{showPairs "+" r.reads}/{showPairs "-" r.stores}", { st with subs := subs })
+  let stored := r.stores.map (·.1)
+  let subs := subs ++ stored.filter fun k => !subs.contains k
+  (s!"{out}/{if attrHit then "-" else "A"}/{showPairs "+" r.reads}/{showPairs "-" stored}", { st with subs := subs })
 
 def parseRead? (s : String) : Option (Nat × Nat × List Char × List Char) :=
   if !s.startsWith "r" then none else
